@@ -249,3 +249,77 @@ def builds(fnode):
                     conds = conds[: len(conds) - len(outer)] if len(conds) >= len(outer) else conds
                     out.append(Build(c.func.value.id, c.args[0], n.target, n.iter, conds, n, "loop"))
     return out
+
+
+def _free_names(st):
+    """Names a statement reads from its enclosing scope (for a nested def: its free variables)."""
+    if isinstance(st, ast.FunctionDef):
+        a = st.args
+        own = {x.arg for x in a.posonlyargs + a.args + a.kwonlyargs} | ({a.vararg.arg} if a.vararg else set()) | ({a.kwarg.arg} if a.kwarg else set())
+        loads = set()
+        for x in ast.walk(st):
+            if isinstance(x, ast.Name):
+                if isinstance(x.ctx, ast.Store):
+                    own.add(x.id)
+                else:
+                    loads.add(x.id)
+        nl = {n for x in ast.walk(st) if isinstance(x, (ast.Nonlocal, ast.Global)) for n in x.names}
+        return (loads - own) | nl | {x.id for d in st.decorator_list for x in ast.walk(d) if isinstance(x, ast.Name)}
+    return {n.id for n in ast.walk(st) if isinstance(n, ast.Name)}
+
+
+def local_slice(fnode, expr, bound=()):
+    """The top-level statements of fnode (in order, all before the statement containing `expr`) on which the value of
+    `expr` depends through local variables: a backward slice over names, whole statements kept.  Names in `bound`
+    are inputs supplied by the caller: what defines them is not part of the slice."""
+    body = list(fnode.body)
+    idx = None
+    for i, st in enumerate(body):
+        if any(x is expr for x in ast.walk(st)):
+            idx = i
+            break
+    if idx is None:
+        return None
+    need = {n.id for n in ast.walk(expr) if isinstance(n, ast.Name)} - set(bound)
+    keep = []
+    for st in reversed(body[:idx]):
+        assigned = set()
+        for x in ast.walk(st):
+            if isinstance(x, (ast.Assign, ast.AugAssign, ast.AnnAssign, ast.For, ast.NamedExpr)):
+                tg = x.targets if isinstance(x, ast.Assign) else [x.target]
+                for t in tg:
+                    work = [t]
+                    while work:
+                        nn = work.pop()
+                        if isinstance(nn, ast.Name):
+                            assigned.add(nn.id)
+                        elif isinstance(nn, (ast.Tuple, ast.List)):
+                            work.extend(nn.elts)
+                        elif isinstance(nn, ast.Starred):
+                            work.append(nn.value)
+        if isinstance(st, (ast.FunctionDef, ast.ClassDef)):
+            assigned.add(st.name)
+        if isinstance(st, (ast.FunctionDef, ast.ClassDef)):
+            assigned = {st.name}
+        if assigned & need:
+            keep.append(st)
+            need |= _free_names(st) - set(bound)
+    keep.reverse()
+    return keep
+
+
+def eval_with_slice(fnode, expr, env, stubs, enum_name="Order"):
+    """Interpret the backward slice of `expr` in fnode and then `expr`, on the finite-domain interpreter."""
+    from ..model import AnalysisError
+    from ..orderdom import Interp
+
+    sl = local_slice(fnode, expr)
+    if sl is None:
+        raise AnalysisError("slice: expression is not inside a top-level statement of the function")
+    it = Interp(enum_name, stubs=stubs)
+    env = dict(env)
+    for st in sl:
+        if isinstance(st, (ast.Import, ast.ImportFrom, ast.Expr)):
+            continue
+        it.stmt(st, env)
+    return it.ev(expr, env)
